@@ -850,6 +850,10 @@ class Interp:
         if isinstance(v, TMatch):
             if name == "group":
                 return Builtin("match.group", lambda it, a, k: v.groups[a[0]] if a[0] in v.groups else it.raise_("IndexError", "no such group"))
+            if name == "groups":
+                # all groups of the pattern in order (1..n); a group that took no part is None
+                n = max([i for i in v.groups if isinstance(i, int)] or [0])
+                return Builtin("match.groups", lambda it, a, k: tuple(v.groups.get(i) for i in range(1, n + 1)))
             raise Unsupported("match.%s" % name)
         if isinstance(v, (str, FinStr, SStr, GroupVal, OpaqueStr, TStr)):
             return Builtin("str." + name, lambda it, a, k, _v=v, _n=name: it.str_method(_v, _n, a, k))
